@@ -448,6 +448,31 @@ class Evaluator(object):
             if name == "datetime.timedelta":
                 return ("timedelta", tuple(sorted(kwargs.items())), tuple(args))
             return self._dyn(call)
+        # a helper of the package whose body is (a docstring and) one `return <expression>`: the call is the expression with the
+        # parameters bound (positional, *args as a tuple, keywords, evaluable defaults) -- read through, never executed
+        if isinstance(target, FunctionInfo) and target.cls is None and isinstance(target.node, ast.FunctionDef):
+            body = [st for st in target.node.body if not (isinstance(st, ast.Expr) and isinstance(st.value, ast.Constant))]
+            if len(body) == 1 and isinstance(body[0], ast.Return) and body[0].value is not None and depth < 30 \
+                    and not any(isinstance(a, ast.Starred) for a in call.args) and not any(k.arg is None for k in call.keywords):
+                a_ = target.node.args
+                names = [x.arg for x in a_.posonlyargs + a_.args]
+                vals = [ev(x) for x in call.args]
+                new_env = dict(env or {})
+                for nm, v in zip(names, vals):
+                    new_env[nm] = v
+                if a_.vararg is not None:
+                    new_env[a_.vararg.arg] = tuple(vals[len(names):])
+                elif len(vals) > len(names):
+                    return self._dyn(call)
+                for k in call.keywords:
+                    new_env[k.arg] = ev(k.value)
+                dnames = names[len(names) - len(a_.defaults):] if a_.defaults else []
+                for nm, dv in zip(dnames, a_.defaults):
+                    if nm not in new_env:
+                        new_env[nm] = self.eval(dv, target.module.scope, None, None, depth + 1)
+                if all(nm in new_env for nm in names):
+                    return self.eval(body[0].value, target.module.scope, new_env, None, depth + 1)
+            return self._dyn(call)
         # method calls on evaluated values: "...".split(), .replace(), .format(), .keys()
         if isinstance(f, ast.Attribute):
             try:
